@@ -42,6 +42,8 @@ thread_local! {
 struct Del {
     path: String,
     t_ns: u64,
+    /// global event number of the deletion (orders it against catalog versions written in the same virtual instant)
+    ev: u64,
     pinned: bool,
     pinned_when_pass_looked: bool,
     /// a query that had read this chunk while holding it pinned is still running, but the pin is gone
@@ -177,7 +179,7 @@ fn scen(_spec: RunSpec) -> ScenFut {
                     let pinned = pins.is_pinned(path);
                     let at_pass = pass_pins_obs.lock().unwrap().contains(path);
                     let in_use_unpinned = q > 0 && !pinned && cur_reads_del.lock().unwrap().contains(path);
-                    dels.lock().unwrap().push(Del { path: path.to_string(), t_ns: sim::now_ns(), pinned, pinned_when_pass_looked: at_pass, in_use_unpinned });
+                    dels.lock().unwrap().push(Del { path: path.to_string(), t_ns: sim::now_ns(), ev: sim::ev(), pinned, pinned_when_pass_looked: at_pass, in_use_unpinned });
                 }
             }));
         }
@@ -229,9 +231,10 @@ fn scen(_spec: RunSpec) -> ScenFut {
                 }
             }
         });
-        // a feeder keeps adding mergeable recent chunks so that merges and GC passes happen throughout the run
+        // a feeder keeps adding mergeable recent chunks (one in three under the path of an earlier, already collected file) so that merges and GC passes happen throughout the run
         let feed_plan: Vec<(u64, u32)> = (0..sim::w_range(2, 8)).map(|_| (sim::w_range(20, 200) as u64, sim::w_range(2, 3))).collect();
         let finner = inner.clone();
+        let reuse_plan: Vec<bool> = (0..8).map(|_| sim::w(3) == 2).collect();
         let feeder_ids: Arc<Mutex<Vec<SeedChunk>>> = Arc::new(Mutex::new(Vec::new()));
         let fids = feeder_ids.clone();
         let mut next_row_id = 100_000i64;
@@ -251,7 +254,19 @@ fn scen(_spec: RunSpec) -> ScenFut {
                     ];
                     next_row_id += 2;
                     let bytes = pw.write_batch(&batch(0, &rows)).unwrap();
-                    let path = format!("default/data/fed/fed_{k}.parquet");
+                    // one new chunk in three re-uses the path of an earlier one whose file has been collected meanwhile
+                    // (deterministic file names, as the splitter's back-fill targets have, make such re-use real)
+                    let mut path = format!("default/data/fed/fed_{k}.parquet");
+                    if reuse_plan.get(k as usize % reuse_plan.len()).copied().unwrap_or(false) {
+                        for j in 1..k {
+                            let old = format!("default/data/fed/fed_{j}.parquet");
+                            if finner.head(&Path::from(old.clone())).await.is_err() {
+                                sim::probe("path-of-a-collected-file-used-again");
+                                path = old;
+                                break;
+                            }
+                        }
+                    }
                     if fstore.put(&Path::from(path.clone()), PutPayload::from(bytes.clone())).await.is_ok() {
                         let _ = fmeta.register_chunk(&path, &ChunkMetadata { path: path.clone(), min_timestamp: mn, max_timestamp: mn + 1, row_count: 2, size_bytes: bytes.len() as u64 }).await;
                         fids.lock().unwrap().push(SeedChunk { path, ids: vec![], rows: vec![], min: mn, max: mn + 1, level: 0, size: bytes.len() as u64 });
@@ -340,10 +355,15 @@ fn scen(_spec: RunSpec) -> ScenFut {
             let from = d.t_ns.saturating_sub(grace_ns);
             let mut current_before: Option<&BTreeSet<String>> = None;
             let mut referenced_at: Option<u64> = None;
-            for (t, _, listed, _) in &timeline {
+            // versions are ordered against the deletion by global event number, not by virtual time (a path may be
+            // registered again in the very instant in which its old file was collected)
+            for (t, ev, listed, _) in &timeline {
+                if *ev > d.ev {
+                    break;
+                }
                 if *t <= from {
                     current_before = Some(listed);
-                } else if *t <= d.t_ns && listed.contains(&d.path) {
+                } else if listed.contains(&d.path) {
                     referenced_at = Some(*t);
                 }
             }
